@@ -15,6 +15,10 @@ ASAN_OPTIONS=detect_leaks=0:abort_on_error=1, PYTHONMALLOC=malloc.  Portfolios (
   cshift  C integer << >> on the complete WELL-DEFINED grid (0 <= n < width, no overflow)
   fmt     f-string / %-formatting of C integers of every type at the type bounds
   mview   typed memoryview indexing / slicing+indexing / assignment, 1-D and 2-D, index grid out of range
+  mvslice typed memoryview slices (1-D all have_start/have_stop/have_step forms, run-time and literal steps in -3..3 and 0; 2-D one
+          axis sliced, the other full / reversed / indexed) x start/stop in {-len-1,-len,-1,0,len-1,len,len+1} on exact-size
+          array.array exporters (and bytearrays), EVERY element of the result read back
+  pow2    literal 2, -2, 4, 8, 1, 3 ** n and **= n, n an object / int-typed run-time value over every boundary of the shift count
 Oracle: no sanitizer report having a frame in the module's generated C (ASan: any frame of the report mentions the
 module; UBSan: the reported file is the module's C file), no death by signal, and the outcome (type, repr / exception
 type) equals the reference (CPython on the same source, or the small Python model below for typed programs).
@@ -35,6 +39,7 @@ LEVEL_TEXT = ('Nine portfolios (C35 fault-injection portfolio with every single 
               'CPython / the Python model.')
 LEVEL_NOTE = ('Inputs are boundary grids, not all values.  User-typed C arithmetic that is undefined by C semantics is removed from the '
               'alphabet: C shifts with n < 0, n >= width, negative left operand of <<, or overflowing result; + - * on C integers.  '
+              'The exponent 2**70 of the power family is replaced by -2**70 (CPython itself cannot compute 2 ** 2**70).  '
               'MIN // -1 on types narrower than int and C-typed conversions of non-int objects are run for sanitizer reports only '
               '(value not judged).  -fno-wrapv is passed so that UBSan sees signed overflow in helpers although real builds '
               'usually add -fwrapv.  Sanitizer reports without any frame in the generated module are counted, not attributed.  '
@@ -227,6 +232,69 @@ def mv_set2(int[:, :] m, Py_ssize_t i, Py_ssize_t j, int v):
     return [('c36mview', '.pyx', src, ('model', 'props._g11_sanmodel:model'), funcs)]
 
 
+def fam_pow2():
+    """2 ** n through the shift helper: every boundary of the shift count (CPython itself cannot compute 2 ** 2**70:
+    that exponent is replaced by its negation, which takes the helper's fallback as well)."""
+    ns = ['0', '1', '2', '29', '30', '31', '32', '61', '62', '63', '64', '65', '127', '128', '-1', '-63', 'True', 'False', '-2**70',
+          'IntSub(63)', 'IntSub(5)', '63.0', '1.5', 'None', "'a'", 'IndexOnly(3)']
+    ints = [n for n in ns if n[0] in '-0123456789TF' and '.' not in n]
+    src, funcs = 'from vlib.support import IntSub\n', []
+    for base, nm in ((2, '2'), (-2, 'm2'), (4, '4'), (8, '8'), (1, '1'), (3, '3')):
+        lit = '(%d)' % base if base < 0 else str(base)
+        src += '\ndef pw%s(n):\n    return %s ** n\n\ndef pw%s_ip(n):\n    x = %s\n    x **= n\n    return x\n' % (nm, lit, nm, lit)
+        src += '\ndef pw%s_i(n: int):\n    return %s ** n\n\ndef pw%s_ip_i(n: int):\n    x = %s\n    x **= n\n    return x\n' % (nm, lit, nm, lit)
+        funcs += [('pw%s' % nm, 'pow/%s**n' % nm, [(n,) for n in ns]), ('pw%s_ip' % nm, 'pow/%s**=n' % nm, [(n,) for n in ns]),
+                  ('pw%s_i' % nm, 'pow/%s**int' % nm, [(n,) for n in ints]), ('pw%s_ip_i' % nm, 'pow/%s**=int' % nm, [(n,) for n in ints])]
+    src += '\ndef pwx2(x, n):\n    return x ** n\n\ndef pwmod(n):\n    return pow(2, n, 1000003) if isinstance(n, int) and n >= 0 else None\n'
+    funcs.append(('pwx2', 'pow/x**n', [(x, n) for x in ('2', '-2', '2.0', 'True') for n in ns]))
+    funcs.append(('pwmod', 'pow/pow3', [(n,) for n in ns]))
+    return [('c36pow', '.py', src, ('exec', None), funcs)]
+
+
+def fam_mvslice():
+    """Typed-memoryview slicing with run-time bounds and steps, every element of the result read back.
+    Exporters are exact-size malloc'ed buffers (array.array) plus bytearrays."""
+    arr = "__import__('array').array"
+    exps = [('%s("B", [1, 2, 3, 4, 5])' % arr, 5), ('%s("B", [9])' % arr, 1), ("bytearray(b'\\x01\\x02\\x03\\x04\\x05')", 5),
+            ("bytearray(b'')", 0), ('%s("B", [1, 2, 3, 4])' % arr, 4)]
+    steps = [-3, -2, -1, 1, 2, 3]
+
+    def grid(n):
+        return sorted({-n - 1, -n, -1, 0, n - 1, n, n + 1})
+    read = '    return (s.shape[0], [s[i] for i in range(s.shape[0])])\n'
+    src, funcs = '', []
+    forms = [('abc', 'a, b, c', 'a:b:c'), ('a_c', 'a, c', 'a::c'), ('_bc', 'b, c', ':b:c'), ('__c', 'c', '::c'), ('ab_', 'a, b', 'a:b'),
+             ('a__', 'a', 'a:'), ('_b_', 'b', ':b')]
+    for op, params, sl in forms:
+        name = 'mvs_%s' % op
+        src += 'def %s(unsigned char[:] m, %s):\n    s = m[%s]\n%s\n' % (name, ', '.join('Py_ssize_t ' + q.strip() for q in params.split(',')), sl, read)
+        ins = []
+        for e, n in exps:
+            for a in (grid(n) if 'a' in op else [None]):
+                for b in (grid(n) if 'b' in op else [None]):
+                    for c in (steps + [0] if 'c' in op else [None]):
+                        ins.append(tuple([e] + [repr(v) for v in (a, b, c) if v is not None]))
+        funcs.append((name, 'mvslice:%s' % op, ins))
+    # literal steps (have_step with a compile-time constant)
+    for c in steps:
+        for op, params, sl in (('ab_', 'a, b', 'a:b:%d' % c), ('a__', 'a', 'a::%d' % c), ('_b_', 'b', ':b:%d' % c)):
+            name = 'mvs_%s_c%s' % (op, str(c).replace('-', 'm'))
+            src += 'def %s(unsigned char[:] m, %s):\n    s = m[%s]\n%s\n' % (name, ', '.join('Py_ssize_t ' + q.strip() for q in params.split(',')), sl, read)
+            ins = [tuple([e] + [repr(v) for v in (a, b) if v is not None]) for e, n in exps
+                   for a in (grid(n) if 'a' in op else [None]) for b in (grid(n) if 'b' in op else [None])]
+            funcs.append((name, 'mvslice:%s:%d' % (op, c), ins))
+    # 2-D (3 x 4 ints on an exact-size array.array): one axis with run-time a:b:c, the other full / reversed / indexed
+    m2 = 'memoryview(%s("i", range(12))).cast("B").cast("i", (3, 4))' % arr
+    read2 = '    return [[s[i, j] for j in range(s.shape[1])] for i in range(s.shape[0])]\n'
+    for op, other, sl, n in (('ax0', 'all', 'a:b:c, :', 3), ('ax0', 'rev', 'a:b:c, ::-1', 3), ('ax1', 'all', ':, a:b:c', 4), ('ax1', 'rev', '::-1, a:b:c', 4)):
+        name = 'mvs2_%s_%s' % (op, other)
+        src += 'def %s(int[:, :] m, Py_ssize_t a, Py_ssize_t b, Py_ssize_t c):\n    s = m[%s]\n%s\n' % (name, sl, read2)
+        funcs.append((name, 'mvslice2:%s:%s' % (op, other), [(m2, repr(a), repr(b), repr(c)) for a in grid(n) for b in grid(n) for c in steps + [0]]))
+    src += 'def mvs2_ax0_idx(int[:, :] m, Py_ssize_t a, Py_ssize_t b, Py_ssize_t c, Py_ssize_t j):\n    s = m[a:b:c, j]\n    return [s[i] for i in range(s.shape[0])]\n'
+    funcs.append(('mvs2_ax0_idx', 'mvslice2:ax0:idx', [(m2, repr(a), repr(b), repr(c), repr(j)) for a in grid(3) for b in grid(3) for c in steps for j in (0, 3, -1)]))
+    return [('c36mvslice', '.pyx', src, ('model', 'props._g11_sanmodel:model'), funcs)]
+
+
 def fam_arith(tier):
     from props import C02_const_arith as C02
     parts = C02.programs('quick')
@@ -263,7 +331,7 @@ def fam_fault():
 
 
 def all_units(tier):
-    return fam_idx() + fam_conv_fmt() + fam_cdiv_cshift() + fam_oshift() + fam_mview() + fam_arith(tier) + fam_fault()
+    return fam_idx() + fam_conv_fmt() + fam_cdiv_cshift() + fam_oshift() + fam_pow2() + fam_mview() + fam_mvslice() + fam_arith(tier) + fam_fault()
 
 
 # ------------------------------------------------------------------------------------------ running children
@@ -510,7 +578,7 @@ def run(ctx):
                  'signed-overflow detection relies on -fno-wrapv overriding the -fwrapv of the build farm']
 
 
-REACH = ['__Pyx_GetItemInt_List_Fast', '__Pyx_GetItemInt_Tuple_Fast', '__Pyx_SetItemInt_Fast', '__Pyx_GetItemInt_Unicode_Fast',
+REACH = ['__Pyx__PyNumber_PowerOf2', '__pyx_memoryview_slice_memviewslice', '__Pyx_GetItemInt_List_Fast', '__Pyx_GetItemInt_Tuple_Fast', '__Pyx_SetItemInt_Fast', '__Pyx_GetItemInt_Unicode_Fast',
          '__Pyx_GetItemInt_ByteArray_Fast', '__Pyx_PyObject_GetSlice', '__Pyx_PyLong_LshiftObjC', '__Pyx_PyLong_RshiftObjC',
          '__Pyx_PyLong_As_int', '__Pyx_PyLong_As_unsigned_PY_LONG_LONG', '__Pyx_PyLong_From_long', '__Pyx_div_int', '__Pyx_mod_long',
          '__Pyx_PyUnicode_From_int', '__Pyx_PyUnicode_From_size_t', '__pyx_memoryview_slice_memviewslice', '__Pyx_RaiseBufferIndexError',
